@@ -1,10 +1,18 @@
 check("C10", "model_checking",
       "Two bindings. (a) The recursion/closure-dense programs of SyltGen's universe (expression live across a recursive call on either side, closures "
-      "created per loop iteration, blob methods, counters/shared captured variables/case bindings captured by closures/higher-order recursion) are "
-      "executed by the reference semantics SyltSem in TLC, and the compiled program's trace must equal the specified one. (b) SyltActivation, a "
+      "created per loop iteration, blob methods, counters/shared captured variables/case bindings captured by closures/higher-order recursion), "
+      "SyltOrder's evaluation-order and re-entrancy universes, and three further products run by spec/MC_Reent.tla - CHAINS (a chain of field / index / "
+      "method links, 13 kinds x local/global root, held across a sibling call that changes the chain at one of its links), CAPTURE BY REFERENCE "
+      "(SyltCapture: one expression reads x and creates a getter and a setter closure over x - tuple elements, call arguments, list elements, blob "
+      "fields; x local / global / upvalue / per loop iteration / per recursive activation / block-local; later changes by the creator and by the "
+      "sibling closure must be visible through every closure) and LIBRARY RE-ENTRANCY (SyltLibReent: filter / map / fold / find / for_each, the set / "
+      "dict / maybe equivalents, whose callbacks call the library again - get / last / len / contains / pop / dict.get / set.contains directly or "
+      "from the callback of a nested higher-order call, the same function nested included) - are executed by the reference semantics SyltSem in "
+      "TLC, and the compiled program's trace must equal the specified one. (b) SyltActivation, a "
       "trace-only TLA+ spec over the interpreter's activation event log (Enter/Exit/GlobalWrite/GlobalRead/Closure), is validated by TLC on every "
       "run: the NoInterference invariant (no activation reads a global temporary last written by another activation) is evaluated at every event, "
       "so a shared temporary is caught even when the clobbered value happens not to reach a print. SyltActivation is also model-checked on its own "
       "(the invariant is violable in the free model).",
-      "Trusted: TLC, SyltSem, SyltActivation, minilua and the faithfulness of its event log (only globals named V<digits> are logged), the printer.",
+      "Trusted: TLC, SyltSem, SyltActivation, minilua and the faithfulness of its event log (only globals named V<digits> are logged: a temporary "
+      "shared inside the Lua preamble is seen by binding (a) only), the printer.",
       "TLA+ reference semantics + TLC trace validation of the Lua interpreter's activation event log (NoInterference)", "DESIGN.md 5.10, 8/C10")
